@@ -1,4 +1,35 @@
-import Stbem.Model.SingleLayer
-namespace Stbem.SL
-theorem placeholder_C12 : True := trivial
-end Stbem.SL
+import Stbem.Props.SL
+import Stbem.Props.Formulas
+import Stbem.Props.C15
+
+/-!
+# C12 — Symmetries of kernel and curve
+
+exchange of the space intervals and a common time shift leave the model's result identical (errors included) on both paths; mirrors are involutions and commute. Rotation invariance for the true kernel is up to quadrature error only (search).
+
+The theorems are proved in `Stbem.Props.SL` (model `Stbem.Model.SingleLayer`, tied to `src/single_layer.py` by exact
+execution of the real code), `Stbem.Props.Formulas` (terms regenerated from the Python source on every run) and
+`Stbem.Props.C15`; this file lists, as aliases, the ones that carry property C12.
+-/
+namespace Stbem.C12
+
+alias bilform_exchange_quad := Stbem.SL.bilform_exchange_quad
+alias bilform_exchange_exact := Stbem.SL.bilform_exchange_exact
+alias stik_symm := Stbem.SL.stik_symm
+alias bilform_shift := Stbem.SL.bilform_shift
+alias kernel_shift := Stbem.SL.kernel_shift
+alias dtk_shift := Stbem.Formulas.R.dtk_shift
+alias fint_1_shift := Stbem.Formulas.R.fint_1_shift
+alias fint_2_shift := Stbem.Formulas.R.fint_2_shift
+alias fint_3_shift := Stbem.Formulas.R.fint_3_shift
+alias fint_4_shift := Stbem.Formulas.R.fint_4_shift
+alias stik_1_shift := Stbem.Formulas.R.stik_1_shift
+alias stik_2_shift := Stbem.Formulas.R.stik_2_shift
+alias stik_3_shift := Stbem.Formulas.R.stik_3_shift
+alias stik_4_shift := Stbem.Formulas.R.stik_4_shift
+alias mirrorX2_mirrorX2 := Stbem.Quad.mirrorX2_mirrorX2
+alias mirrorY2_mirrorY2 := Stbem.Quad.mirrorY2_mirrorY2
+alias mirrorX2_mirrorY2_comm := Stbem.Quad.mirrorX2_mirrorY2_comm
+alias duffy2_sym_agree := Stbem.Quad.duffy2_sym_agree
+
+end Stbem.C12
